@@ -667,3 +667,100 @@ func resultIndexOf(v ssa.Value, call ssa.CallInstruction) int {
 	}
 	return -1
 }
+
+// returnedFuncs: the functions a constructor hands out as its result – a closure, a named
+// function, either possibly converted to a func-kinded named type or boxed in an interface, or what
+// a same-package constructor it delegates to returns.
+func returnedFuncs(ctor *ssa.Function, depth int) []*ssa.Function {
+	var out []*ssa.Function
+	seen := map[*ssa.Function]bool{}
+	var fromVal func(v ssa.Value, d int)
+	fromVal = func(v ssa.Value, d int) {
+		if v == nil || d > 6 {
+			return
+		}
+		switch x := v.(type) {
+		case *ssa.ChangeType:
+			fromVal(x.X, d+1)
+		case *ssa.MakeInterface:
+			fromVal(x.X, d+1)
+		case *ssa.ChangeInterface:
+			fromVal(x.X, d+1)
+		case *ssa.Phi:
+			for _, e := range x.Edges {
+				fromVal(e, d+1)
+			}
+		case *ssa.MakeClosure:
+			if f, ok := x.Fn.(*ssa.Function); ok && !seen[f] {
+				seen[f] = true
+				out = append(out, f)
+			}
+		case *ssa.Function:
+			if !seen[x] && x.Blocks != nil {
+				seen[x] = true
+				out = append(out, x)
+			}
+		case *ssa.Call:
+			if cf := staticCalleeFn(x); cf != nil && depth > 0 && samePkgFn(cf, ctor) {
+				for _, f := range returnedFuncs(cf, depth-1) {
+					if !seen[f] {
+						seen[f] = true
+						out = append(out, f)
+					}
+				}
+			}
+		case *ssa.UnOp:
+			if s := strip(x); s != ssa.Value(x) {
+				fromVal(s, d+1)
+			}
+		}
+	}
+	for _, r := range returnsOf(ctor) {
+		for _, rv := range resultsOf(r) {
+			fromVal(rv, 0)
+		}
+	}
+	return out
+}
+
+// heldAtOrAbove: pred holds for the block of the instruction, or – when the function is an
+// unexported helper / closure that is only ever called statically – for every place it is called
+// from (recursively, up to depth). This is how a condition is looked for when the guarded statement
+// was extracted into a helper and the test stayed with the caller (or vice versa).
+func (p *Prog) heldAtOrAbove(in ssa.Instruction, depth int, pred func(b *ssa.BasicBlock) bool) bool {
+	if pred(in.Block()) {
+		return true
+	}
+	if depth <= 0 {
+		return false
+	}
+	fn := in.Parent()
+	var above []ssa.Instruction
+	if par := fn.Parent(); par != nil {
+		allInstrs(par, func(x ssa.Instruction) {
+			if mc, ok := x.(*ssa.MakeClosure); ok && mc.Fn == ssa.Value(fn) {
+				above = append(above, mc)
+			}
+		})
+	} else {
+		if obj, _ := fn.Object().(*types.Func); obj == nil || obj.Exported() {
+			return false
+		}
+		sites, esc := p.staticCallSites(fn)
+		if esc {
+			return false
+		}
+		for _, s := range sites {
+			above = append(above, s)
+		}
+	}
+	if len(above) == 0 {
+		return false
+	}
+	for _, a := range above {
+		if !p.heldAtOrAbove(a, depth-1, pred) {
+			return false
+		}
+	}
+	return true
+}
